@@ -16,6 +16,7 @@
 #endif
 struct dt_dt_s UNREACH_dt_get_base(void) UNREACH_CONTRACT;
 struct dt_d_s UNREACH_dt_dadd(struct dt_d_s d, struct dt_ddur_s dur) UNREACH_CONTRACT;
+zidx_t UNREACH_leaps_before_si32(const int32_t fld[], size_t nfld, int32_t key) UNREACH_CONTRACT;
 
 #if defined VERIF_TU_DT_CORE
 /* epoch seconds -> (day count, h:m:s), incl. negative epochs */
@@ -61,7 +62,8 @@ VERIF_CONTRACT(__CPROVER_requires(base.typ != DT_UNK)
 	 U_DT(d) + (dur).dv * HMS_UNIT((dur).durtyp) >= SX_MIN && U_DT(d) + (dur).dv * HMS_UNIT((dur).durtyp) <= SX_MAX)
 #define POST_dt_dtadd_hms(ret, d, dur) \
 	((ret).sandwich == 1 && (ret).d.typ == (d).d.typ && V_d((ret).d) && (ret).t.typ == DT_HMS && V_HMS((ret).t) && \
-	 U_DT(ret) == U_DT(d) + (dur).dv * HMS_UNIT((dur).durtyp))
+	 /* carry form of U(ret) == U(d) + step: the day numbers differ by D and the times of day by step - 86400 D */ \
+	 (long long)SSM((ret).t) - (long long)SSM((d).t) + 86400LL * (long long)(AN_d((ret).d) - AN_d((d).d)) == (dur).dv * HMS_UNIT((dur).durtyp))
 /* time-only values (no date part): the time of day moves by the increment reduced to less than a day, the day overflow of that
  * reduced step is left in t.carry (-1, 0, 1) and the date slot is untouched */
 #define T_ONLY(x) ((x).sandwich == 1 && (x).d.typ == DT_DUNK && (x).t.typ == DT_HMS && V_HMS((x).t))
@@ -77,19 +79,54 @@ VERIF_CONTRACT(__CPROVER_requires(base.typ != DT_UNK)
 struct dt_dt_s dt_dtadd(struct dt_dt_s d, struct dt_dtdur_s dur)
 CONTRACT(PRE_dt_dtadd(d, dur), POST_dt_dtadd(RV, d, dur));
 
+#if defined VERIF_TU_DT_CORE
+/* ---------------------------------------------------------------- C14: real-seconds differences follow the leap-second table.
+ * The generated table (lib/leap-seconds.def, what lib/tzraw.c compiles in) is made visible to the prover by contracts/dt-core.pre.h. */
+#include "leaps.contracts.h"
+#if defined VERIF_NATIVE
+# define LB_N (nleaps)
+#else
+# define LB_N (sizeof(leaps_corr) / sizeof(*leaps_corr))
+#endif
+/* entry i lies strictly before the instant (K, H): earlier day, or the same day and (for date-times) an earlier time of day */
+#define LBC(tab, K, S, H, i) ((i) < LB_N && ((tab)[i] < (K) || ((tab)[i] == (K) && (S) && leaps_hms[i] < (H))))
+/* index of the last table entry strictly before the instant, 0 when there is none (tables are strictly increasing: L_leaptab) */
+#define S_LB(tab, K, S, H) (LBC(tab, K, S, H, 47) ? 47 : LBC(tab, K, S, H, 46) ? 46 : LBC(tab, K, S, H, 45) ? 45 : LBC(tab, K, S, H, 44) ? 44 : LBC(tab, K, S, H, 43) ? 43 : LBC(tab, K, S, H, 42) ? 42 : LBC(tab, K, S, H, 41) ? 41 : LBC(tab, K, S, H, 40) ? 40 : LBC(tab, K, S, H, 39) ? 39 : LBC(tab, K, S, H, 38) ? 38 : LBC(tab, K, S, H, 37) ? 37 : LBC(tab, K, S, H, 36) ? 36 : LBC(tab, K, S, H, 35) ? 35 : LBC(tab, K, S, H, 34) ? 34 : LBC(tab, K, S, H, 33) ? 33 : LBC(tab, K, S, H, 32) ? 32 : LBC(tab, K, S, H, 31) ? 31 : LBC(tab, K, S, H, 30) ? 30 : LBC(tab, K, S, H, 29) ? 29 : LBC(tab, K, S, H, 28) ? 28 : LBC(tab, K, S, H, 27) ? 27 : LBC(tab, K, S, H, 26) ? 26 : LBC(tab, K, S, H, 25) ? 25 : LBC(tab, K, S, H, 24) ? 24 : LBC(tab, K, S, H, 23) ? 23 : LBC(tab, K, S, H, 22) ? 22 : LBC(tab, K, S, H, 21) ? 21 : LBC(tab, K, S, H, 20) ? 20 : LBC(tab, K, S, H, 19) ? 19 : LBC(tab, K, S, H, 18) ? 18 : LBC(tab, K, S, H, 17) ? 17 : LBC(tab, K, S, H, 16) ? 16 : LBC(tab, K, S, H, 15) ? 15 : LBC(tab, K, S, H, 14) ? 14 : LBC(tab, K, S, H, 13) ? 13 : LBC(tab, K, S, H, 12) ? 12 : LBC(tab, K, S, H, 11) ? 11 : LBC(tab, K, S, H, 10) ? 10 : LBC(tab, K, S, H, 9) ? 9 : LBC(tab, K, S, H, 8) ? 8 : LBC(tab, K, S, H, 7) ? 7 : LBC(tab, K, S, H, 6) ? 6 : LBC(tab, K, S, H, 5) ? 5 : LBC(tab, K, S, H, 4) ? 4 : LBC(tab, K, S, H, 3) ? 3 : LBC(tab, K, S, H, 2) ? 2 : LBC(tab, K, S, H, 1) ? 1 : 0)
+#define LB_T(X_) ((X_).typ == DT_YMD || (X_).typ == DT_DAISY)
+#define S_LB_DT(X_) ((X_).typ == DT_YMD ? S_LB(leaps_ymd, (X_).d.ymd.u, (X_).sandwich, (X_).t.hms.u24) : S_LB(leaps_d, (X_).d.daisy, (X_).sandwich, (X_).t.hms.u24))
+static zidx_t leaps_before(struct dt_dt_s d)
+VERIF_CONTRACT(__CPROVER_requires(LB_T(d) && LB_N <= 48) __CPROVER_ensures(RV == S_LB_DT(d) && RV < LB_N) __CPROVER_assigns());
+#endif
+/* difference in real (SI) seconds, requested as target type 0xff by ddiff: the UTC difference goes to .soft, the number of leap
+ * seconds between the two instants (TAI-UTC at d2 minus TAI-UTC at d1, so it changes sign with the operands) goes to .corr */
+#define DT_DURTAI ((dt_dtdurtyp_t)0xffU)
+/* U(d2) - U(d1) in carry form: difference of the times of day plus 86400 per day of difference */
+#define U_DIFF(d1, d2) ((long long)(SSM((d2).t) - SSM((d1).t)) + 86400LL * (long long)(AN_d((d2).d) - AN_d((d1).d)))
+#define PRE_dt_dtdiff_tai(tgt, d1, d2) ((tgt) == DT_DURTAI && V_SANDWICH(d1) && V_SANDWICH(d2) && LB_T(d1) && (d1).typ == (d2).typ && \
+	U_DIFF(d1, d2) >= -2147483647LL && U_DIFF(d1, d2) <= 2147483647LL)
+#define POST_dt_dtdiff_tai(ret, tgt, d1, d2) ((ret).durtyp == DT_DURS && (ret).neg == 0 && (ret).tai == 1 && (long long)(ret).soft == U_DIFF(d1, d2) && \
+	(int)(ret).corr == leaps_corr[S_LB_DT(d2)] - leaps_corr[S_LB_DT(d1)])
 /* difference of two sandwiches in seconds */
 #define PRE_dt_dtdiff_s(tgt, d1, d2) ((tgt) == DT_DURS && V_SANDWICH(d1) && V_SANDWICH(d2) && DIFF_T((d1).d.typ) && DIFF_T((d2).d.typ))
 #define POST_dt_dtdiff_s(ret, tgt, d1, d2) ((ret).durtyp == DT_DURS && (ret).neg == 0 && (ret).tai == 0 && (long long)(ret).dv == U_DT(d2) - U_DT(d1))
-struct dt_dtdur_s dt_dtdiff(dt_dtdurtyp_t tgttyp, struct dt_dt_s d1, struct dt_dt_s d2)
-CONTRACT(PRE_dt_dtdiff_s(tgttyp, d1, d2), POST_dt_dtdiff_s(RV, tgttyp, d1, d2));
+#if defined VERIF_TU_DT_CORE
+#define PRE_dt_dtdiff(tgt, d1, d2) (PRE_dt_dtdiff_s(tgt, d1, d2) || PRE_dt_dtdiff_tai(tgt, d1, d2))
+#define POST_dt_dtdiff(ret, tgt, d1, d2) ((tgt) == DT_DURTAI ? POST_dt_dtdiff_tai(ret, tgt, d1, d2) : POST_dt_dtdiff_s(ret, tgt, d1, d2))
+#else
 #define PRE_dt_dtdiff(tgt, d1, d2) PRE_dt_dtdiff_s(tgt, d1, d2)
 #define POST_dt_dtdiff(ret, tgt, d1, d2) POST_dt_dtdiff_s(ret, tgt, d1, d2)
+#endif
+struct dt_dtdur_s dt_dtdiff(dt_dtdurtyp_t tgttyp, struct dt_dt_s d1, struct dt_dt_s d2)
+CONTRACT(PRE_dt_dtdiff(tgttyp, d1, d2), POST_dt_dtdiff(RV, tgttyp, d1, d2));
 
-/* date-time comparison: chronological order of same-typed sandwiches */
-#define DTKEY(x) ((long long)AN_d((x).d) * 86400LL + (long long)SSM((x).t))
-#define PRE_dt_dtcmp(d1, d2) (V_SANDWICH(d1) && V_SANDWICH(d2) && (d1).d.typ == (d2).d.typ && (d1).typ == (d2).typ && \
-	(d1).t.hms.ns == 0 && (d2).t.hms.ns == 0 && ((d1).t.hms.u >> 56) == 0 && ((d2).t.hms.u >> 56) == 0)
-#define POST_dt_dtcmp(ret, d1, d2) ((ret) == (DTKEY(d1) < DTKEY(d2) ? -1 : DTKEY(d1) > DTKEY(d2) ? 1 : 0))
+/* date-time comparison: chronological order of same-typed sandwiches = lexicographic (day, time of day);
+ * the day order is the one dt_dcmp / __ymcw_cmp are proved to compute */
+#define CMPS_T(t) (CMP_T(t) || (t) == DT_YMCW)
+#define DAYCMP(a, b) ((a).typ == DT_YMCW ? (GY_d(a) != GY_d(b) ? DCMP3(GY_d(a), GY_d(b)) : DCMP3(GYD_d(a), GYD_d(b))) : DCMP3(DKEY(a), DKEY(b)))
+#define V_TPART(x) ((x).t.typ == DT_HMS && V_HMS24((x).t) && ((x).t.hms.u >> 56) == 0)
+#define PRE_dt_dtcmp(d1, d2) ((d1).sandwich == 1 && (d2).sandwich == 1 && (d1).d.typ == (d2).d.typ && (d1).typ == (d2).typ && CMPS_T((d1).d.typ) && \
+	V_d((d1).d) && V_d((d2).d) && V_TPART(d1) && V_TPART(d2))
+#define POST_dt_dtcmp(ret, d1, d2) ((ret) == (DAYCMP((d1).d, (d2).d) != 0 ? DAYCMP((d1).d, (d2).d) : DCMP3(TKEY((d1).t), TKEY((d2).t))))
 int dt_dtcmp(struct dt_dt_s d1, struct dt_dt_s d2)
 CONTRACT(PRE_dt_dtcmp(d1, d2), POST_dt_dtcmp(RV, d1, d2));
 #endif
